@@ -587,7 +587,9 @@ class NF:
             if nm in ("Eq", "NotEq") and a.canon() > b.canon():
                 a, b = b, a
             atoms.append(f"{nm}({a.canon()}, {b.canon()})")
-        return Poly.atom(" & ".join(atoms), deps)
+        if len(atoms) == 1:
+            return Poly.atom(atoms[0], deps)
+        return Poly.atom("and(" + ", ".join(sorted(atoms)) + ")", deps)  # a < b <= c  ==  a < b and b <= c
 
     def _e_BoolOp(self, e, sc, at, depth):
         parts = [self.poly(x, sc, at, depth) for x in e.values]
